@@ -94,7 +94,9 @@ class Tok:
 
 
 def _with_stubs(f):
-    """int/float are CPython's parsers (the 'documented conversion' is which parser gets which text)"""
+    """int/float are CPython's parsers (the 'documented conversion' is which parser gets which text).  They are shadowed in the module
+    namespace by token builders; code that binds the parsers elsewhere (tables built at import time) simply does not see the stand-ins,
+    and `conv` below then compares with CPython's own result."""
     had = {k: (k in vars(S)) for k in ("int", "float")}
     S.int = lambda x: Tok("int", x)
     S.float = lambda x: Tok("float", x)
@@ -106,12 +108,26 @@ def _with_stubs(f):
                 delattr(S, k)
 
 
-def sections_ok(shift: str, zone: str, fl: str, txt: str, date: str, rev: bool) -> bool:
+def conv(got, kind, text):
+    """`got` is the documented conversion of `text`: the stand-in token, or what CPython's parser returns for it"""
+    if isinstance(got, Tok):
+        return got == Tok(kind, text)
+    want = int(text) if kind == "int" else float(text)
+    return (type(got) is type(want)) & (got == want)
+
+
+INTS = ["0", "7", "12", "-3", "007", " 5", "54"]
+FLTS = ["1.5", "1e3", "-0.25", "10", " 2.5 ", "6.25E+01", "0"]
+
+
+def sections_ok(ishift: int, izone: int, ifl: int, txt: str, date: str, rev: bool) -> bool:
     """
-    pre: len(shift) <= 2 and len(zone) <= 2 and len(fl) <= 2 and len(txt) <= 2 and len(date) == 8
+    pre: 0 <= ishift < len(INTS) and 0 <= izone < len(INTS) and 0 <= ifl < len(FLTS) and len(txt) <= 2 and len(date) == 8
     pre: all(ch in "0123456789" for ch in date)
     post: _
     """
+    shift, zone, fl = INTS[ishift], INTS[izone], FLTS[ifl]
+
     def order(d):
         return dict(reversed(list(d.items()))) if rev else d
 
@@ -121,13 +137,13 @@ def sections_ok(shift: str, zone: str, fl: str, txt: str, date: str, rev: bool) 
         ok = ok & (g.attrs == {"SceneId": txt, "Other": fl}) & (len(g.data) == 0)
         g = S.transform_product_spec(order({"ResamplingMethod": "BL", "UTM_ZoneNo": zone, "MapDirection": txt, "OrbitDataPrecision": fl,
                                             "AttitudeDataPrecision": txt, "PixelSpacing": fl}))
-        ok = ok & (g.attrs.get("ResamplingMethod") == "bilinear") & (g.attrs.get("UTM_ZoneNo") == Tok("int", zone)) & (g.attrs.get("MapDirection") == txt)
-        ok = ok & (g.attrs.get("OrbitDataPrecision") == fl) & (g.attrs.get("AttitudeDataPrecision") == txt) & (g.attrs.get("PixelSpacing") == Tok("float", fl))
+        ok = ok & (g.attrs.get("ResamplingMethod") == "bilinear") & conv(g.attrs.get("UTM_ZoneNo"), "int", zone) & (g.attrs.get("MapDirection") == txt)
+        ok = ok & (g.attrs.get("OrbitDataPrecision") == fl) & (g.attrs.get("AttitudeDataPrecision") == txt) & conv(g.attrs.get("PixelSpacing"), "float", fl)
         ok = ok & (len(g.attrs) == 6)
         g = S.transform_image_info(order({"SceneCenterDateTime": date + " 14:43:15.525", "OffNadirAngle": fl, "SceneStartDateTime": date + " 01:02:03.456"}))
         iso = date[:4] + "-" + date[4:6] + "-" + date[6:]
         ok = ok & (g.attrs.get("SceneCenterDateTime") == iso + "T14:43:15.525")
-        ok = ok & (g.attrs.get("OffNadirAngle") == Tok("float", fl)) & (g.attrs.get("SceneStartDateTime") == iso + "T01:02:03.456")
+        ok = ok & conv(g.attrs.get("OffNadirAngle"), "float", fl) & (g.attrs.get("SceneStartDateTime") == iso + "T01:02:03.456")
         g = S.transform_autocheck(order({"PRF_Check": "", "Other_Check": txt}))
         ok = ok & (g.attrs == {"PRF_Check": "N/A", "Other_Check": txt if txt else "N/A"})
         g = S.transform_result_info(order({"PracticeResultCode": txt}))
@@ -135,7 +151,7 @@ def sections_ok(shift: str, zone: str, fl: str, txt: str, date: str, rev: bool) 
         g = S.transform_label_info(order({"Sensor": txt, "ObservationDate": date, "ProcessFacility": "EICS"}))
         ok = ok & (g.attrs.get("Sensor") == txt) & (g.attrs.get("ObservationDate") == iso) & (g.attrs.get("ProcessFacility") == DEC.processing_facilities["EICS"])
         g = S.transform_scene_spec(order({"SceneShift": shift}))
-        ok = ok & (g.attrs == {"SceneShift": Tok("int", shift)})
+        ok = ok & (list(g.attrs) == ["SceneShift"]) & conv(g.attrs.get("SceneShift"), "int", shift)
         return ok
 
     return _with_stubs(run)
@@ -145,13 +161,14 @@ NAMES = ["VOL-X", "LED-X", "IMG-HH-X", "IMG-HV-X", "IMG-VV-X", "TRL-X"]
 PERMS_PI = [[0, 1, 2, 3, 4, 5, 6, 7, 8, 9], [9, 8, 7, 6, 5, 4, 3, 2, 1, 0], [3, 0, 8, 1, 9, 2, 7, 4, 6, 5], [1, 0, 2, 3, 4, 5, 6, 7, 8, 9], [0, 1, 2, 4, 3, 5, 7, 6, 9, 8]]
 
 
-def product_info_ok(perm: int, px1: str, ln1: str, px2: str, ln2: str, k: int) -> bool:
+def product_info_ok(perm: int, ipx1: int, iln1: int, ipx2: int, iln2: int, k: int) -> bool:
     """
     pre: 0 <= perm < len(PERMS_PI) and 3 <= k <= 6
-    pre: len(px1) <= 2 and len(ln1) <= 2 and len(px2) <= 2 and len(ln2) <= 2
+    pre: 0 <= ipx1 < len(INTS) and 0 <= iln1 < len(INTS) and 0 <= ipx2 < len(INTS) and 0 <= iln2 < len(INTS)
     post: _
     """
     # file roles follow the NN numbering, shapes are (pixels, lines) per index - in ANY order of the lines
+    px1, ln1, px2, ln2 = INTS[ipx1], INTS[iln1], INTS[ipx2], INTS[iln2]
     items = [("CntOfL15ProductFileName", str(k))]
     items += [(f"L15ProductFileName{i + 1:02d}", (NAMES[:2] + NAMES[2:2 + k - 3] + NAMES[-1:])[i]) for i in range(k)]
     items += [("NoOfPixels_1", px1), ("NoOfLines_1", ln1), ("NoOfPixels_2", px2), ("NoOfLines_2", ln2), ("ProductFormat", "CEOS"), ("BitPixel", ln1), ("ProductDataSize", px2)]
@@ -167,8 +184,9 @@ def product_info_ok(perm: int, px1: str, ln1: str, px2: str, ln2: str, k: int) -
         ok = (files["volume_directory"] == "VOL-X") & (files["sar_leader"] == "LED-X") & (files["sar_trailer"] == "TRL-X")
         ok = ok & (list(files["sar_imagery"]) == NAMES[2:2 + k - 3])
         shapes = g["shapes"].attrs
-        ok = ok & (sorted(shapes) == ["1", "2"]) & (shapes["1"] == (Tok("int", px1), Tok("int", ln1))) & (shapes["2"] == (Tok("int", px2), Tok("int", ln2)))
-        ok = ok & (g.attrs.get("ProductFormat") == "CEOS") & (g.attrs.get("BitPixel") == Tok("int", ln1)) & (g.attrs.get("ProductDataSize") == Tok("float", px2))
+        ok = ok & (sorted(shapes) == ["1", "2"]) & isinstance(shapes["1"], tuple) & (len(shapes["1"]) == 2) & (len(shapes["2"]) == 2)
+        ok = ok & conv(shapes["1"][0], "int", px1) & conv(shapes["1"][1], "int", ln1) & conv(shapes["2"][0], "int", px2) & conv(shapes["2"][1], "int", ln2)
+        ok = ok & (g.attrs.get("ProductFormat") == "CEOS") & conv(g.attrs.get("BitPixel"), "int", ln1) & conv(g.attrs.get("ProductDataSize"), "float", px2)
         ok = ok & (sorted(g.data) == ["data_files", "shapes"])
         return ok
 
